@@ -9,10 +9,10 @@ package packet
 
 import (
 	"context"
-	"net"
 	"errors"
 	"fmt"
 	"io"
+	"net"
 	"os"
 	"strings"
 	"syscall"
@@ -29,7 +29,7 @@ func (c20timeout) Error() string   { return "i/o timeout" }
 func (c20timeout) Timeout() bool   { return true }
 func (c20timeout) Temporary() bool { return true }
 
-// symbols: F frame, P frame whose processing fails, A EAGAIN, T timeout, R ECONNRESET, U unknown,
+// symbols: F frame, P frame whose processing fails, A EAGAIN, T timeout, R ECONNRESET, U unknown (same text each time), V unknown (text differs by position),
 // E EOF, B EBADF, C closed file, X unexpected EOF, Y closed pipe, a wrapped EAGAIN, r wrapped ECONNRESET,
 // t a timeout net.Error that wraps another errno (net.OpError{Err: ETIMEDOUT}), w EWOULDBLOCK wrapped with %w;
 // frames whose PROCESSING fails with an error value that a read fault could also have: p io.ErrUnexpectedEOF,
@@ -54,6 +54,9 @@ func c20err(sym byte, i int) error {
 	case 'r':
 		return &os.PathError{Op: "read", Path: "sock", Err: syscall.ECONNRESET}
 	case 'U':
+		// the same text every time: each occurrence is a failure of its own and must be reported
+		return errors.New("unknown failure")
+	case 'V':
 		return fmt.Errorf("unknown-%d", i)
 	case 'E':
 		return io.EOF
@@ -70,14 +73,14 @@ func c20err(sym byte, i int) error {
 }
 
 type c20env struct {
-	script    string
-	pos       int
-	processed []string
-	errs      []string
-	release   chan struct{}
-	reads     int
+	script        string
+	pos           int
+	processed     []string
+	errs          []string
+	release       chan struct{}
+	reads         int
 	readsAtCancel int
-	cancelled bool
+	cancelled     bool
 }
 
 func (e *c20env) ReadPacketData() ([]byte, *gopacket.CaptureInfo, error) {
@@ -140,6 +143,9 @@ func c20model(script string) (processed, errs []string, terminated bool, sleeps 
 			errs = append(errs, syscall.EAGAIN.Error())
 		case strings.IndexByte(c20Transient, sym) >= 0:
 		case sym == 'U':
+			errs = append(errs, "unknown failure")
+			sleeps++
+		case sym == 'V':
 			errs = append(errs, fmt.Sprintf("unknown-%d", i))
 			sleeps++
 		case strings.IndexByte(c20Terminal, sym) >= 0:
@@ -283,6 +289,17 @@ func c20run(script string, consumerStopsOnCancel bool, withCancel bool) (cfg fun
 		if !c20prefix(e.errs, wantE) {
 			return "c:" + out, fmt.Errorf("after cancel: errors %v is not a prefix of %v", e.errs, wantE)
 		}
+		// a frame the socket has handed over is processed, cancelled or not: "every successfully read
+		// frame is processed exactly once" has no exception for a frame read while the scan is ending
+		var readFrames []string
+		for i := 0; i < e.pos; i++ {
+			if strings.IndexByte("FPpq", script[i]) >= 0 {
+				readFrames = append(readFrames, fmt.Sprintf("%c%d", script[i], i))
+			}
+		}
+		if strings.Join(e.processed, ",") != strings.Join(readFrames, ",") {
+			return "c:" + out, fmt.Errorf("after cancel: frames read from the socket %v, frames processed %v (a frame that was read is dropped)", readFrames, e.processed)
+		}
 		if e.reads > e.readsAtCancel+1 {
 			return "c:" + out, fmt.Errorf("cancelled after %d reads but %d reads were issued", e.readsAtCancel, e.reads)
 		}
@@ -295,10 +312,10 @@ func init() { drv.Register("c20", verifC20) }
 
 func verifC20(c *drv.Ctx) {
 	alpha, maxLen, maxLenD1 := "FPATtRUEBC", 5, 3
-	ext, extLen := "FPpqATtwaRUEBC", 4
+	ext, extLen := "FPpqATtwaRUVEBC", 4
 	if c.Thorough() {
 		alpha, maxLen, maxLenD1 = "FPATtRUEBCXYar", 5, 4
-		ext, extLen = "FPpqATtwarRUEBCXY", 4
+		ext, extLen = "FPpqATtwarRUVEBCXY", 4
 	}
 	c.R.Rule = fmt.Sprintf("every reachable read-outcome script of length <= %d over %q and of length <= %d over the extended alphabet %q (terminal symbols only last; p, q = frames whose processing fails with io.ErrUnexpectedEOF / EAGAIN, w = EWOULDBLOCK wrapped with %%w, a = EAGAIN in an os.SyscallError) x {consumer drains to close, consumer stops on cancel}; "+
 		"each run through the real ReceivePackets under the scheduler, reads being scheduling points: deviation bound 0 with the cancel event injected at every choice point for all scripts, bound 1 for scripts of length <= %d; "+
